@@ -81,10 +81,14 @@ def cmpOp (s : String) (a b : Int) : Bool :=
   else if s = "<=" then decide (a ≤ b)
   else false
 
+/-- a comparison whose direction `factgen` read from the source as a canonical token ("?": keep `dflt`) -/
+def relCmp (tok dflt : String) (a b : Int) : Bool := cmpOp (if tok = "?" then dflt else tok) a b
+
 /-- `isExpired(interval, now, ts)`: `interval OP₀ 0 && now - ts OP₁ interval` with the operators found
-in the source (`Facts.ops_isExpired = ["!=", ">"]` on the pinned tree). -/
+in the source, read as the canonical token `Facts.rel_isExpired` = "interval REL age" ("<" on the pinned
+tree, however the comparison is written; "?" keeps the built-in reading). -/
 def isExpired (i now ts : Int) : Bool :=
-  cmpOp (Facts.ops_isExpired[0]?.getD "") i 0 && cmpOp (Facts.ops_isExpired[1]?.getD "") (now - ts) i
+  decide (i ≠ 0) && relCmp Facts.rel_isExpired "<" i (now - ts)
 
 /-- `Reset` on one typed map -/
 def resetMap (ty : MType) (i now : Int) (m : AList Key Entry) : AList Key Entry :=
